@@ -25,7 +25,8 @@ META = {
             "exhaustive vm_compute sweep of all 41371 workloads of <= 4 operations (stores of 1-3 slots under two keys, purges; "
             "slot reuse and same-key overwrites included) x all crash points: a hit is wrong ONLY when a same-key overwrite is "
             "in flight at the crash.",
-    "note": "partial: rock only (ufs/aufs/diskd: swap.state replay and directory scan not modelled or exercised); the general "
+    "note": "partial: theorems and model cover rock only; ufs and aufs (swap.state replay, RebuildState, UFSSwapDir) are "
+            "exercised end to end by the same driver and judged by the oracle alone (no model, no theorem; diskd not run); the general "
             "theorem needs the write-once hypothesis (slot reuse is covered only by the bounded sweep and the end-to-end "
             "runs); 'restarts successfully' rests on the end-to-end runs (the model's rebuild is total; assertion freedom of "
             "the rebuild on arbitrary images is C57's subject). Theorems are about the transcribed model, tied to the code by "
@@ -569,23 +570,38 @@ def gen_scenarios(rng, n):
             if rng.random() < 0.3:
                 s["partial"] = rng.choice([8, 16, 24, 28, 32, 36, 40, 41, 300, 1000, 4096, 8000, 16000])
             out.append(s)
-    return out[:n]
+    out = out[:n]
+    # ufs / aufs: driven end to end and judged by the oracle only (no model): about one scenario in six
+    for i in range(max(2, n // 6)):
+        ops = gen_workload(rng, rng.choice([1, 2, 3]), rng.randrange(2, 5))
+        s = {"k": "crash", "dir": rng.choice(["ufs", "aufs"]), "ops": ops,
+             "at": rng.randrange(1, 4 + 4 * sum(nwrites_est(op[2]) for op in ops if op[0] != "purge"))}
+        if rng.random() < 0.3:
+            s["partial"] = rng.choice([100, 1000, 3000])
+        out.append(s)
+    return out
 
 
 def run(res, tier):
     res.rule = ("random workloads of 2-5 operations (GET miss, reload of a cached URL with a new version of another size, "
                 "PURGE) over 1-3 URLs with body sizes from 300 bytes to 70 KB (1-5 rock slots), squid killed at a randomly "
                 "chosen cache-file write of the workload (30 % with only a prefix of that write reaching the file, cut at a "
-                "DbCellHeader field boundary or inside the payload), restarted, every URL fetched with only-if-cached; "
-                "non-trivial = the crash falls inside a multi-write store")
+                "DbCellHeader field boundary or inside the payload), restarted, every URL fetched with only-if-cached; plus "
+                "about one scenario in six on a ufs or aufs cache_dir (killed at a random write to swap.state or an object "
+                "file), judged by the oracle only; non-trivial = the scenario ran to the post-restart queries")
     try:
         std.run_lab(res, PID, tier, area="diskcrash", gens=["diskcrash"], gen_scenarios=gen_scenarios,
                     run_impl=run_impl, to_case=to_case, oracle=oracle,
                     corr_name="DiskcrashModel (writes, rebuild, hit) vs the running squid",
-                    n_quick=18, n_thorough=600, seed_salt=16,
+                    n_quick=18, n_thorough=600, seed_salt=16, model_blind=model_blind,
                     kind_fn=kind_fn, nontrivial_fn=lambda s, o: " | " in o)
     finally:
         _state.clear()
+
+
+def model_blind(s):
+    """ufs/aufs scenarios are outside the model: only the oracle judges them"""
+    return s.get("dir", "rock") != "rock"
 
 
 def kind_fn(s, o):
@@ -596,5 +612,6 @@ def kind_fn(s, o):
     if toks and toks[0] == "RESTART-FAIL":
         return "restart-fail"
     h = sum(1 for t in toks if t.startswith("H:"))
-    return ("torn" if s.get("partial") else ("crash" if s.get("at") else "clean")) + ":hits=%d/%d" % (h, len(toks))
+    return s.get("dir", "rock") + ":" + ("torn" if s.get("partial") else ("crash" if s.get("at") else "clean")) + \
+        ":hits=%d/%d" % (h, len(toks))
 
